@@ -36,6 +36,31 @@ def with_pins(case):
     return case
 
 
+def table_truth(case, nasm):
+    """What the summary must print for power and flow rate, from the input
+    as written (flow in the input's own unit); None where the input leaves
+    the value to the solver."""
+    flow = [None] * nasm
+    power = [None] * nasm
+    plain = (len(case['assign']) == nasm and
+             all(len(a) == 4 for a in case['assign']))
+    if plain:
+        for i, a in enumerate(case['assign']):
+            kw = {k.lower(): v for k, v in a[3].items()}
+            if 'flowrate' in kw:
+                flow[i] = float(kw['flowrate'])
+    if plain and case.get('power') and not case.get('powers') and \
+            case.get('total_power') is None and \
+            case.get('power_scaling_factor', 1.0) == 1.0:
+        from . import scenarios
+        truth = case.get('_truth', case)
+        for i, a in enumerate(case['assign']):
+            aid = scenarios.pos_index(a[1], a[2]) + 1
+            if str(aid) in truth['power']:
+                power[i] = cases.asm_power_integral(truth, aid)
+    return {'flow': flow, 'power': power}
+
+
 def record(args):
     label, case, opts = args
     dassh = common.import_dassh()
@@ -80,7 +105,8 @@ def record(args):
                               for i in range(len(r.assemblies))]
                 tables_ok = tables.check_summary(
                     dassh, r, str(d), trk,
-                    units=case.get('setup', {}).get('Units'))
+                    units=case.get('setup', {}).get('Units'),
+                    truth=table_truth(case, len(r.assemblies)))
                 tables_msg = list(tables.LAST_MISMATCH)
             ptab = None
             if crash is None and opts.get('dptable'):
